@@ -571,6 +571,14 @@ class Unit:
                         inserts.append((bo + cp, block_lines(sl)))
                 inserts.append((bo + lend - 1, block_lines(sl)))
                 continue
+            if kind in ('opt-loop', 'opt-loop-start'):
+                # invariants for a loop that a repair introduced: on a tree without that loop there is nothing to annotate, and the obligation the
+                # loop serves (stated elsewhere in the function) then fails by itself instead of the anchor being reported lost
+                if loops is None:
+                    loops = rx.find_loops(body)
+                if nn is None or nn < 1 or nn > len(loops):
+                    continue
+                kind = kind[4:]
             if kind in ('loop', 'before-loop', 'loop-start', 'loop-end'):
                 if loops is None:
                     loops = rx.find_loops(body)
